@@ -119,10 +119,13 @@ func runC14(rc *RunCtx) {
 	bound := 2
 	maxAll := 8
 	if rc.Thorough() {
-		bound = 3
-		maxAll = 12
+		bound = 5
+		maxAll = 14
 	}
 	faulty := []inflowPat{patSeven, patMulti}
+	if rc.Thorough() {
+		faulty = append(faulty, patSeven) // a third block in which calls can fail
+	}
 	// two fault-free suffixes: one that brings new coins and one in which nothing arrives at all
 	// (what is owed must be paid even when no source has anything new)
 	suffixes := [][]inflowPat{{patOne, patNone}, {patNone, patNone}}
@@ -317,14 +320,14 @@ func runC14(rc *RunCtx) {
 		}
 		if ji%(len(jobs)/5+1) == 0 {
 			mu.Lock()
-			samples = append(samples, map[string]interface{}{"config": cfg.String(), "failing_calls": j.fail, "call_kinds": kindsOf(r.kinds, j.fail), "history": "7/10/13 ; 1000a+3b/101a/5b ; [fault-free] " + suffixName(suffixes[j.si])})
+			samples = append(samples, map[string]interface{}{"config": cfg.String(), "failing_calls": j.fail, "call_kinds": kindsOf(r.kinds, j.fail), "history": suffixName(faulty) + " ; [fault-free] " + suffixName(suffixes[j.si])})
 			mu.Unlock()
 		}
 	})
 	rc.Level = "fault_enumeration"
 	rc.Cov = map[string]interface{}{
 		"evaluations": int(runs) + len(cfgs), "distinct_nontrivial": int(nontrivial),
-		"rule":    fmt.Sprintf("for each configuration the fault-free twin fixes the number n of mutating bank calls in the two faulty blocks; every non-empty subset of failing call indices is run when n+1 <= %d, otherwise every subset of size <= %d (iterative deviation bounding). Non-trivial = runs in which at least one injected fault was actually hit; each (configuration, fault set) is distinct by construction.", maxAll, bound),
+		"rule":    fmt.Sprintf("for each configuration the fault-free twin fixes the number n of mutating bank calls in the faulty blocks (two quick, three thorough); every non-empty subset of failing call indices is run when n+1 <= %d, otherwise every subset of size <= %d (iterative deviation bounding). Non-trivial = runs in which at least one injected fault was actually hit; each (configuration, fault set) is distinct by construction.", maxAll, bound),
 		"samples": samples, "configurations": len(cfgs), "max_calls_in_faulty_blocks": int(maxCalls), "fault_sets_by_size": perBound,
 		"bank_call_kinds_seen_in_twins": kindsSeen, "deviation_bound_completed": bound, "exhaustive": true,
 		"fault_free_suffixes": []string{suffixName(suffixes[0]), suffixName(suffixes[1]) + " (clean failures only)"},
